@@ -285,6 +285,9 @@ def selftest(ctx):
 
 
 def run(ctx):
+    from spverif.ref import enums as _enums
+    if ctx.shard[0] == 0:
+        _enums.check(ctx, "code_tables", ['spacepackets.cfdp.tlv.defs.TlvType', 'spacepackets.cfdp.tlv.defs.FilestoreActionCode', 'spacepackets.cfdp.tlv.defs.FilestoreResponseStatusCode', 'spacepackets.cfdp.defs.FaultHandlerCode', 'spacepackets.cfdp.defs.ConditionCode'])
     from spverif.san import scribble
     scribble.install()
     r = ctx.rng
